@@ -307,7 +307,15 @@ func runC02(c *mon.Ctx) {
 			// the honest tuple must be accepted by both verifiers
 			ok, verr, pv := base.libVerify(env)
 			if pv != nil || verr != nil || !ok {
-				c.Note(fmt.Sprintf("honest tuple not accepted by the library (C01's subject): ok=%v err=%v panic=%v", ok, verr, pv))
+				// who is wrong? If the reference verifier accepts the tuple, the library verifier rejects a valid proof
+				// (the two must always agree); otherwise the prover produced a bad proof, which is C01's subject.
+				rok, rerr := base.refVerify(env, false)
+				c.Count("reference_verifier_decisions", 1)
+				if rok && rerr == nil {
+					c.Fail("valid-proof-rejected", fmt.Sprintf("CheckMultiProof rejects (ok=%v err=%v panic=%v) a tuple that the reference verifier accepts", ok, verr, pv), s.describe())
+				} else {
+					c.Note(fmt.Sprintf("honest tuple rejected by both verifiers (prover defect, C01's subject): ok=%v err=%v", ok, verr))
+				}
 				return
 			}
 			if (!refSeen["honest|"+ncl] && c02owner(c, "honest|"+ncl)) || allRef {
